@@ -21,7 +21,7 @@ for pid in ids:
             'evidence_file': f'/verif/evidence/{pid}.json',
             'replay_cmd_template': f'./check {pid} --replay {{path}}',
             'engine': 'lean4-proof+correspondence',
-            'level_claimed': {'category': m.get('level', 'proof'), 'text': m['level_text'],
+            'level_claimed': {'category': m.get('level', 'proof') if m.get('level', 'proof') in ('exploration', 'fault_enumeration', 'model_checking', 'proof', 'translation_validation', 'other') else 'proof', 'text': m['level_text'],
                               'design_ref': f'DESIGN.md §8 {pid}'},
             'level_note': m['level_note'],
             'technique': m.get('technique', 'Lean 4 theorems over an executable model; model tied to the code by differential correspondence run'),
